@@ -33,7 +33,7 @@ def FZ(target, seconds=60, pkg=None):
     return dict(name="fuzz-" + target, fuzz=target, seconds=seconds, tiers=("thorough",), pkg=pkg)
 
 CFG = {
-    "C20": dict(pkg="c20", level="exploration", runs=[R(shards=(16, 32))]),
+    "C20": dict(pkg="c20", level="exploration", runs=[R(shards=(16, 32)), R(name="race", race=True, run="TestConcurrent", shards=(2, 4))]),
 }
 try:
     sys.path.insert(0, ROOT)
@@ -374,18 +374,20 @@ def main():
                 continue
             seen_kinds[k] = seen_kinds.get(k, 0) + 1
             samples.append(smp)
-    rule = ""
+    rules = []
     assumptions = []
     notes = []
     for s in stats:
         for n in s.get("notes") or []:
             if n.startswith("RULE: "):
-                rule = rule or n[6:]
+                if n[6:] not in rules:
+                    rules.append(n[6:])
             elif n.startswith("ASSUME: "):
                 if n[8:] not in assumptions:
                     assumptions.append(n[8:])
             elif n not in notes:
                 notes.append(n)
+    rule = "; ".join(rules)
     known = load_known(pid)
     open_classes = {o["class"] for o in known}
     real = [(c, p_, m) for (c, p_, m) in violations if c not in open_classes]
